@@ -1,4 +1,4 @@
-import DFV.Lemmas.C06Chain
+import DFV.Lemmas.C06HistSubs
 /-!
 # C06 — integrals and means are cell sums times cell measure, consistent across axes
 
@@ -155,6 +155,39 @@ theorem cumulative_formula (f : Fld) (d : String) (r : Res)
     rw [cumTo_eq]
     have : i.getD ax 0 - 1 + 1 = i.getD ax 0 := by omega
     rw [this]; ring
+
+/-- The first cumulative entry along the axis is half the first cell times the cell length. -/
+theorem cumulative_first (f : Fld) (d : String) (g : Fld) (h : integrate f (.name d) true = .ok (.field g)) :
+    ∃ ax, f.mesh.region.dim2index d = .ok ax ∧
+      ∀ i c, inRange f.data.shape i = true → i.getD ax 0 = 0 → c < f.nvdim →
+        cget g.data i c = f.mesh.cellAt ax * (cget f.data i c / 2) := by
+  obtain ⟨ax, g', hax, hr, _, _, _, _, hcum⟩ := cumulative_formula f d _ h
+  injection hr with hr; subst hr
+  refine ⟨ax, hax, ?_⟩
+  intro i c hi h0 hc
+  rw [hcum i c hi hc, h0]
+  simp only [sumTo]
+  ring
+
+/-- Trapezoid rule: consecutive cumulative entries along the axis differ by the cell length
+times the average of the two cell values — the cumulative integral is the discrete
+antiderivative that puts half of every cell on either side of its centre. -/
+theorem cumulative_step (f : Fld) (d : String) (g : Fld) (h : integrate f (.name d) true = .ok (.field g)) :
+    ∃ ax, f.mesh.region.dim2index d = .ok ax ∧
+      ∀ i c, inRange f.data.shape i = true → i.getD ax 0 + 1 < f.data.shape.getD ax 0 → c < f.nvdim →
+        cget g.data (setAt i ax (i.getD ax 0 + 1)) c - cget g.data i c
+          = f.mesh.cellAt ax * ((cget f.data i c + cget f.data (setAt i ax (i.getD ax 0 + 1)) c) / 2) := by
+  obtain ⟨ax, g', hax, hr, _, _, _, _, hcum⟩ := cumulative_formula f d _ h
+  injection hr with hr; subst hr
+  refine ⟨ax, hax, ?_⟩
+  intro i c hi hlt hc
+  have haxs : ax < f.data.shape.length := lt_length_of_getD_pos _ _ (by omega)
+  have haxi : ax < i.length := by rw [inRange_length _ _ hi]; exact haxs
+  have hi' : inRange f.data.shape (setAt i ax (i.getD ax 0 + 1)) = true := inRange_setAt _ _ _ _ hi hlt
+  rw [hcum _ c hi' hc, hcum i c hi hc, getD_setAt_self i ax _ haxi]
+  simp only [setAt_setAt, sumTo]
+  rw [setAt_getD_self]
+  ring
 
 /-- The last cumulative entry plus half the last cell is the directional integral. -/
 theorem cumulative_last (f : Fld) (hf : WF f) (d : String) (gc gd : Fld)
@@ -523,18 +556,84 @@ theorem mean_all_linear (α β : Rat) (f g : Fld) (hf : WF f) (hm : g.mesh = f.m
 theorem mean_all_translation_invariant (t : List Rat) (f : Fld) :
     mean (translate t f) .none = mean f .none := rfl
 
-/-! ## The successful branches are reached (total correctness without subregions) -/
+/-- every successful `mean` (no direction, one direction, a list in any order) returns, on the
+spec shape, the sum over the averaged axes divided by the number of summed cells -/
+theorem mean_vals (f : Fld) (dir : Dir) (r : Res) (h : mean f dir = .ok r) :
+    r.nv = f.nvdim ∧ r.shape = mshape f dir ∧
+    ∀ i c, inRange r.shape i = true → c < f.nvdim → r.cval i c = mval f dir i c :=
+  mean_vals' f dir r h
 
-/-- `integrate(d)` succeeds for every direction of a well-formed field without subregions:
+/-- whether `mean` succeeds, and on which mesh and with which shape the result lives, depends
+only on the mesh and the shape of the value array -/
+theorem mean_frame (f f' : Fld) (hm : f'.mesh = f.mesh) (hs : f'.data.shape = f.data.shape)
+    (dir : Dir) (r : Res) (h : mean f dir = .ok r) :
+    ∃ r', mean f' dir = .ok r' ∧ r'.mesh? = r.mesh? ∧ r'.shape = r.shape :=
+  mean_frame' f f' hm hs dir r h
+
+/-- All forms of `mean` — `mean()`, `mean(d)`, `mean(list)` in any order — are linear in the
+field: for two fields on the same mesh the mean of `α·f + β·g` exists whenever that of `f`
+does, lives on the same mesh and equals `α·mean f + β·mean g` entry by entry. -/
+theorem mean_linear (α β : Rat) (f g : Fld) (hm : g.mesh = f.mesh) (hn : g.nvdim = f.nvdim)
+    (hs : g.data.shape = f.data.shape) (dir : Dir) (rf rg : Res)
+    (h1 : mean f dir = .ok rf) (h2 : mean g dir = .ok rg) :
+    ∃ r, mean (lin α f β g) dir = .ok r ∧ r.mesh? = rf.mesh? ∧ r.shape = rf.shape ∧
+      ∀ i c, inRange r.shape i = true → c < f.nvdim →
+        r.cval i c = α * rf.cval i c + β * rg.cval i c := by
+  obtain ⟨r, hr, hmesh, hss⟩ := mean_frame f (lin α f β g) rfl rfl dir rf h1
+  obtain ⟨rg', hrg', _, hsg⟩ := mean_frame f g hm hs dir rf h1
+  rw [h2] at hrg'; injection hrg' with hrg'; subst hrg'
+  obtain ⟨_, _, hvl⟩ := mean_vals _ dir r hr
+  obtain ⟨_, _, hvf⟩ := mean_vals f dir rf h1
+  obtain ⟨_, _, hvg⟩ := mean_vals g dir rg h2
+  refine ⟨r, hr, hmesh, hss, ?_⟩
+  intro i c hi hc
+  rw [hvl i c hi hc, hvf i c (by rw [← hss]; exact hi) hc,
+    hvg i c (by rw [hsg, ← hss]; exact hi) (by rw [hn]; exact hc)]
+  exact mval_lin α β f g hm hs dir i c hc
+
+/-- All forms of `mean` act per component: the mean of the scalar field of component `c` is
+component `c` of the mean, on the same mesh. -/
+theorem mean_componentwise (f : Fld) (c : Nat) (hc : c < f.nvdim) (dir : Dir) (rf : Res)
+    (h : mean f dir = .ok rf) :
+    ∃ r, mean (compFld f c) dir = .ok r ∧ r.mesh? = rf.mesh? ∧ r.shape = rf.shape ∧ r.nv = 1 ∧
+      ∀ i, inRange r.shape i = true → r.cval i 0 = rf.cval i c := by
+  obtain ⟨r, hr, hmesh, hss⟩ := mean_frame f (compFld f c) rfl rfl dir rf h
+  obtain ⟨hnv, _, hvl⟩ := mean_vals _ dir r hr
+  obtain ⟨_, _, hvf⟩ := mean_vals f dir rf h
+  refine ⟨r, hr, hmesh, hss, hnv, ?_⟩
+  intro i hi
+  rw [hvl i 0 hi (by show 0 < 1; omega), hvf i c (by rw [← hss]; exact hi) hc]
+  exact mval_comp f c dir i
+
+/-- The values of every form of `mean` do not depend on where the mesh sits: moving the region
+(and its subregions) by any vector `t` leaves shape and values unchanged. -/
+theorem mean_translation_invariant (t : List Rat) (f : Fld) (dir : Dir) (r r' : Res)
+    (h : mean f dir = .ok r) (h' : mean (translate t f) dir = .ok r') :
+    r'.shape = r.shape ∧ r'.nv = r.nv ∧
+    ∀ i c, inRange r.shape i = true → c < f.nvdim → r'.cval i c = r.cval i c := by
+  obtain ⟨hn, hs, hv⟩ := mean_vals f dir r h
+  obtain ⟨hn', hs', hv'⟩ := mean_vals _ dir r' h'
+  have hss : r'.shape = r.shape := by rw [hs, hs', mshape_translate]
+  refine ⟨hss, by rw [hn, hn']; rfl, ?_⟩
+  intro i c hi hc
+  rw [hv' i c (by rw [hss]; exact hi) hc, hv i c hi hc]
+  exact mval_translate t f dir i c
+
+/-! ## The successful branches are reached (total correctness; subregions allowed: `SubsFit`,
+defined in `DFV/Lemmas/C06Subs.lean`, says every subregion of the mesh starts a whole number of
+cells into the region and is a whole number ≥ 1 of cells long on every axis) -/
+
+/-- `integrate(d)` succeeds for every direction of a well-formed field whose subregions fit
+the mesh (the reduced mesh's subregion setter accepts the inherited subregions, which fit again):
 a field on the reduced mesh for two or more dimensions, the bare array in 1-d. -/
-theorem integrate_dir_ok (f : Fld) (hf : WF f) (hsubs : f.mesh.subs = []) (d : String)
+theorem integrate_dir_ok (f : Fld) (hf : WF f) (hsubs : SubsFit f.mesh) (d : String)
     (hd : d ∈ f.mesh.region.dims) :
-    (2 ≤ f.mesh.ndim → ∃ g, integrate f (.name d) false = .ok (.field g) ∧ g.mesh.subs = []) ∧
+    (2 ≤ f.mesh.ndim → ∃ g, integrate f (.name d) false = .ok (.field g) ∧ SubsFit g.mesh) ∧
     (f.mesh.ndim = 1 → ∃ v, integrate f (.name d) false = .ok (.vals v)) := by
   obtain ⟨ax, hax⟩ := dim2index_of_mem _ _ hd
   constructor
   · intro h2
-    obtain ⟨m', hsel, hms⟩ := sel_ok f.mesh hf.1 hsubs h2 d ax hax
+    obtain ⟨m', hsel, hms⟩ := sel_okS f.mesh hf.1 hsubs h2 d ax hax
     obtain ⟨ax', hax', _, _, _, _, _, _, _, hn, _, _⟩ := sel_spec f.mesh hf.1 d m' hsel
     rw [hax] at hax'; injection hax' with hax'; subst hax'
     have hne1 : ¬ f.mesh.ndim = 1 := by omega
@@ -551,8 +650,8 @@ theorem integrate_dir_ok (f : Fld) (hf : WF f) (hsubs : f.mesh.subs = []) (d : S
 
 /-- Integrating direction by direction succeeds for every ordering `ds` of the directions
 (no repetition, every entry a direction of the mesh, all directions used) of a well-formed
-field without subregions — and then gives `integrate()` (theorem `fubini`). -/
-theorem fubini_total (f : Fld) (hf : WF f) (hsubs : f.mesh.subs = []) (ds : List String)
+field whose subregions fit the mesh — and then gives `integrate()` (theorem `fubini`). -/
+theorem fubini_total (f : Fld) (hf : WF f) (hsubs : SubsFit f.mesh) (ds : List String)
     (hnd : ds.Nodup) (hmem : ∀ d ∈ ds, d ∈ f.mesh.region.dims) (hlen : ds.length = f.mesh.ndim) :
     integrateSeq f ds = integrate f .none false := by
   suffices hok : ∃ r, integrateSeq f ds = .ok r by
@@ -613,12 +712,42 @@ theorem integrate_cum_ok (f : Fld) (hf : WF f) (d : String) (hd : d ∈ f.mesh.r
   simp only [hax, if_true, mkFld, hshape, ne_eq, not_true_eq_false, if_false]
   exact ⟨_, rfl⟩
 
-/-- `mean(d)` succeeds for every direction of a well-formed field without subregions that
+/-- Total form of the cumulative/total relation, two or more dimensions: for every direction
+of a well-formed field (fitting subregions) both integrals exist and the last cumulative entry
+along the axis plus half the last cell is the directional integral. -/
+theorem cumulative_last_total (f : Fld) (hf : WF f) (hsubs : SubsFit f.mesh) (h2 : 2 ≤ f.mesh.ndim) (d : String)
+    (hd : d ∈ f.mesh.region.dims) :
+    ∃ ax gc gd, f.mesh.region.dim2index d = .ok ax ∧ integrate f (.name d) true = .ok (.field gc) ∧
+      integrate f (.name d) false = .ok (.field gd) ∧
+      ∀ i c, inRange f.mesh.n i = true → i.getD ax 0 = f.mesh.nAt ax - 1 → c < f.nvdim →
+        cget gc.data i c + f.mesh.cellAt ax * (cget f.data i c / 2) = cget gd.data (removeAt i ax) c := by
+  obtain ⟨gc, hgc⟩ := integrate_cum_ok f hf d hd
+  obtain ⟨gd, hgd, _⟩ := (integrate_dir_ok f hf hsubs d hd).1 h2
+  obtain ⟨ax, hax, hrel⟩ := cumulative_last f hf d gc gd hgc hgd
+  exact ⟨ax, gc, gd, hax, hgc, hgd, hrel⟩
+
+/-- Total form on a 1-d mesh: both integrals exist and the bare array returned by
+`integrate(d)` is the last cumulative entry plus half the last cell. -/
+theorem cumulative_last_1d_total (f : Fld) (hf : WF f) (h1 : f.mesh.ndim = 1) (d : String)
+    (hd : d ∈ f.mesh.region.dims) :
+    ∃ gc v, integrate f (.name d) true = .ok (.field gc) ∧ integrate f (.name d) false = .ok (.vals v) ∧
+      ∀ c, c < f.nvdim →
+        cget gc.data [f.mesh.nAt 0 - 1] c + f.mesh.cellAt 0 * (cget f.data [f.mesh.nAt 0 - 1] c / 2) = v.getD c 0 := by
+  obtain ⟨gc, hgc⟩ := integrate_cum_ok f hf d hd
+  obtain ⟨ax, hax⟩ := dim2index_of_mem _ _ hd
+  have hv : ∃ v, integrate f (.name d) false = .ok (.vals v) := by
+    unfold integrate
+    simp only [hax, Bool.false_eq_true, if_false, h1, if_true]
+    exact ⟨_, rfl⟩
+  obtain ⟨v, hv⟩ := hv
+  exact ⟨gc, v, hgc, hv, fun c hc => cumulative_last_1d f hf d gc v hgc hv c hc⟩
+
+/-- `mean(d)` succeeds for every direction of a well-formed field with fitting subregions that
 has at least two dimensions -/
-theorem mean_dir_ok (f : Fld) (hf : WF f) (hsubs : f.mesh.subs = []) (h2 : 2 ≤ f.mesh.ndim) (d : String)
+theorem mean_dir_ok (f : Fld) (hf : WF f) (hsubs : SubsFit f.mesh) (h2 : 2 ≤ f.mesh.ndim) (d : String)
     (hd : d ∈ f.mesh.region.dims) : ∃ g, mean f (.name d) = .ok (.field g) := by
   obtain ⟨ax, hax⟩ := dim2index_of_mem _ _ hd
-  obtain ⟨m', hsel, _⟩ := sel_ok f.mesh hf.1 hsubs h2 d ax hax
+  obtain ⟨m', hsel, _⟩ := sel_okS f.mesh hf.1 hsubs h2 d ax hax
   obtain ⟨ax', hax', _, _, _, _, _, _, _, hn, _, _⟩ := sel_spec f.mesh hf.1 d m' hsel
   rw [hax] at hax'; injection hax' with hax'; subst hax'
   have hshape : (divBy f.nvdim ((f.data.shape.getD ax 0 : Nat) : Rat) (sumAxis f.nvdim f.data ax)).shape = m'.n := by
@@ -630,9 +759,9 @@ theorem mean_dir_ok (f : Fld) (hf : WF f) (hsubs : f.mesh.subs = []) (h2 : 2 ≤
 
 /-- one step of a direction-by-direction integration succeeds and keeps everything needed
 for the next step -/
-theorem step_ok (f : Fld) (hf : WF f) (hsubs : f.mesh.subs = []) (h2 : 2 ≤ f.mesh.ndim) (d : String)
+theorem step_ok (f : Fld) (hf : WF f) (hsubs : SubsFit f.mesh) (h2 : 2 ≤ f.mesh.ndim) (d : String)
     (hd : d ∈ f.mesh.region.dims) :
-    ∃ g, integrate f (.name d) false = .ok (.field g) ∧ WF g ∧ g.mesh.subs = [] ∧
+    ∃ g, integrate f (.name d) false = .ok (.field g) ∧ WF g ∧ SubsFit g.mesh ∧
       g.mesh.ndim + 1 = f.mesh.ndim ∧
       ∀ d' ∈ f.mesh.region.dims, d' ≠ d → d' ∈ g.mesh.region.dims := by
   obtain ⟨g, hg, hgs⟩ := (integrate_dir_ok f hf hsubs d hd).1 h2
@@ -652,8 +781,8 @@ theorem step_ok (f : Fld) (hf : WF f) (hsubs : f.mesh.subs = []) (h2 : 2 ≤ f.m
     exact mem_removeAt _ _ _ hd' (by rw [hdname]; exact fun h => hne h.symm)
 
 /-- Integrating over some (not all) of the directions one after the other succeeds, for every
-order, on a well-formed field without subregions. -/
-theorem integrateSeq_ok (f : Fld) (hf : WF f) (hsubs : f.mesh.subs = []) (ds : List String)
+order, on a well-formed field whose subregions fit the mesh. -/
+theorem integrateSeq_ok (f : Fld) (hf : WF f) (hsubs : SubsFit f.mesh) (ds : List String)
     (hnd : ds.Nodup) (hmem : ∀ d ∈ ds, d ∈ f.mesh.region.dims) (hlen : ds.length < f.mesh.ndim) :
     ∃ gi, integrateSeq f ds = .ok (.field gi) := by
   induction ds generalizing f with
@@ -667,8 +796,8 @@ theorem integrateSeq_ok (f : Fld) (hf : WF f) (hsubs : f.mesh.subs = []) (ds : L
     exact ⟨gi, by unfold integrateSeq; simp only [hg]; exact hgi⟩
 
 /-- `mean(list)` over some (not all) of the directions succeeds, for every order, on a
-well-formed field without subregions. -/
-theorem mean_dirs_ok (f : Fld) (hf : WF f) (hsubs : f.mesh.subs = []) (ds : List String)
+well-formed field whose subregions fit the mesh. -/
+theorem mean_dirs_ok (f : Fld) (hf : WF f) (hsubs : SubsFit f.mesh) (ds : List String)
     (hnd : ds.Nodup) (hmem : ∀ d ∈ ds, d ∈ f.mesh.region.dims) (hlen : ds.length < f.mesh.ndim) :
     ∃ gm, mean f (.names ds) = .ok (.field gm) := by
   obtain ⟨gi, hgi⟩ := integrateSeq_ok f hf hsubs ds hnd hmem hlen
@@ -699,6 +828,484 @@ theorem mean_dir_1d_rejected (f : Fld) (hf : WF f) (h1 : f.mesh.ndim = 1) (d : S
   obtain ⟨_, _, _, h2, _⟩ := sel_spec f.mesh hf.1 d m' hsel
   omega
 
+/-- Total forms of "mean = integral / extent": for every direction (two or more dimensions),
+and for every list of distinct directions shorter than the number of dimensions, in any order,
+on a well-formed field with fitting subregions, both sides exist and `mean` is the (chained)
+integral divided by the integrated extent on the same reduced mesh. -/
+theorem mean_eq_total (f : Fld) (hf : WF f) (hsubs : SubsFit f.mesh) :
+    (∀ d, 2 ≤ f.mesh.ndim → d ∈ f.mesh.region.dims →
+      ∃ ax gi gm, f.mesh.region.dim2index d = .ok ax ∧ integrate f (.name d) false = .ok (.field gi) ∧
+        mean f (.name d) = .ok (.field gm) ∧ gm.mesh = gi.mesh ∧
+        ∀ i c, inRange (removeAt f.mesh.n ax) i = true → c < f.nvdim →
+          cget gm.data i c = cget gi.data i c / f.mesh.region.edge ax) ∧
+    (∀ ds : List String, ds.Nodup → (∀ d ∈ ds, d ∈ f.mesh.region.dims) → ds.length < f.mesh.ndim →
+      ∃ gi gm, integrateSeq f ds = .ok (.field gi) ∧ mean f (.names ds) = .ok (.field gm) ∧
+        gm.mesh = gi.mesh ∧
+        ∀ i c, inRange gi.data.shape i = true → c < f.nvdim →
+          cget gm.data i c = cget gi.data i c / extent f.mesh.region ds) := by
+  constructor
+  · intro d h2 hd
+    obtain ⟨gi, hgi, _⟩ := (integrate_dir_ok f hf hsubs d hd).1 h2
+    obtain ⟨gm, hgm⟩ := mean_dir_ok f hf hsubs h2 d hd
+    obtain ⟨ax, gm', hax, hr, hmesh, _, _, _, _, hv⟩ := mean_dir_eq f hf d gi _ hgi hgm
+    injection hr with hr; subst hr
+    exact ⟨ax, gi, gm, hax, hgi, hgm, hmesh, hv⟩
+  · intro ds hnd hmem hlen
+    obtain ⟨gi, hgi⟩ := integrateSeq_ok f hf hsubs ds hnd hmem hlen
+    obtain ⟨gm, hgm⟩ := mean_dirs_ok f hf hsubs ds hnd hmem hlen
+    obtain ⟨hmesh, _, _, _, hv⟩ := mean_dirs_eq f hf ds gm gi hgm hgi
+    exact ⟨gi, gm, hgi, hgm, hmesh, hv⟩
+
+/-- Moving the mesh never turns a successful integral into a failure: whenever `integrate`
+succeeds on a well-formed field with fitting subregions it succeeds on the moved field too,
+with the same shape and the same values. -/
+theorem integrate_translation_total (t : List Rat) (f : Fld) (hf : WF f) (hsubs : SubsFit f.mesh) (dir : Dir)
+    (cum : Bool) (r : Res) (h : integrate f dir cum = .ok r) :
+    ∃ r', integrate (translate t f) dir cum = .ok r' ∧ r'.shape = r.shape ∧
+      ∀ i c, inRange r.shape i = true → c < f.nvdim → r'.cval i c = r.cval i c := by
+  have hwt := translate_wf t f hf
+  have hst := subsFit_translate t f hf.1 hsubs
+  have hex : ∃ r', integrate (translate t f) dir cum = .ok r' := by
+    cases dir with
+    | none =>
+      cases cum with
+      | true => cases h
+      | false => exact ⟨_, integrate_all _⟩
+    | name d =>
+      have hd : d ∈ f.mesh.region.dims := by
+        cases cum with
+        | true =>
+          obtain ⟨ax, hax, _⟩ := integrate_cum_unpack f d r h
+          exact mem_of_dim2index _ _ _ hax
+        | false =>
+          cases r with
+          | vals v =>
+            obtain ⟨ax, hax, _⟩ := integrate_dir_1d_unpack f d v h
+            exact mem_of_dim2index _ _ _ hax
+          | field g =>
+            obtain ⟨ax, _, hax, _⟩ := integrate_dir_unpack f d g h
+            exact mem_of_dim2index _ _ _ hax
+      have hd' : d ∈ (translate t f).mesh.region.dims := hd
+      cases cum with
+      | true =>
+        obtain ⟨g, hg⟩ := integrate_cum_ok _ hwt d hd'
+        exact ⟨_, hg⟩
+      | false =>
+        have hnd : (translate t f).mesh.ndim = f.mesh.ndim := by
+          simp [translate, Mesh.ndim, Region.ndim, shiftRegion]
+        by_cases h1 : f.mesh.ndim = 1
+        · obtain ⟨v, hv⟩ := (integrate_dir_ok _ hwt hst d hd').2 (by rw [hnd]; exact h1)
+          exact ⟨_, hv⟩
+        · have h2 : 2 ≤ f.mesh.ndim := by
+            have := hf.1.1.1
+            have h0 : f.mesh.ndim = f.mesh.region.pmin.length := rfl
+            omega
+          obtain ⟨g, hg, _⟩ := (integrate_dir_ok _ hwt hst d hd').1 (by rw [hnd]; exact h2)
+          exact ⟨_, hg⟩
+    | names ds => cases h
+    | other => cases h
+  obtain ⟨r', hr'⟩ := hex
+  obtain ⟨hs, hv⟩ := integrate_translation_invariant t f hf dir cum r r' h hr'
+  exact ⟨r', hr', hs, hv⟩
+
+/-! ## Order independence for every permutation, and the value of a chained integral -/
+
+/-- Fubini, permutation form: for EVERY permutation `ds` of the mesh's directions, integrating
+direction by direction in that order succeeds (well-formed field, fitting subregions) and gives
+exactly `integrate()`. -/
+theorem fubini_perm (f : Fld) (hf : WF f) (hsubs : SubsFit f.mesh) (ds : List String)
+    (hp : ds.Perm f.mesh.region.dims) : integrateSeq f ds = integrate f .none false := by
+  have hnd : ds.Nodup := hp.nodup_iff.mpr (nodup_of_hasDup _ hf.1.1.2.2.2.2.1)
+  have hdl : f.mesh.region.dims.length = f.mesh.ndim := hf.1.1.2.2.1
+  exact fubini_total f hf hsubs ds hnd (fun d hd => hp.mem_iff.mp hd) (by rw [hp.length_eq, hdl])
+
+/-- The chained integral over several (not all) directions, in any order: the result has the
+axes that are not listed, and its value at the reduced index `i` is the product of the cell
+lengths of the listed directions times the sum over the listed axes (as a set: `maskSum` sums
+exactly the axes whose keep-flag is false).  The several-direction form of `integrate_dir`. -/
+theorem integrateSeq_vals (f : Fld) (hf : WF f) (ds : List String) (g : Fld)
+    (h : integrateSeq f ds = .ok (.field g)) :
+    ∃ axes, dimIndices f.mesh.region ds = .ok axes ∧
+      g.mesh.region.dims = filterMask (keepMask f.mesh.n.length axes) f.mesh.region.dims ∧
+      g.mesh.region.pmin = filterMask (keepMask f.mesh.n.length axes) f.mesh.region.pmin ∧
+      g.mesh.region.pmax = filterMask (keepMask f.mesh.n.length axes) f.mesh.region.pmax ∧
+      g.mesh.n = filterMask (keepMask f.mesh.n.length axes) f.mesh.n ∧
+      g.data.shape = g.mesh.n ∧ g.nvdim = f.nvdim ∧
+      ∀ i c, inRange g.mesh.n i = true → c < f.nvdim →
+        cget g.data i c = cellExtent f.mesh ds *
+          maskSum f.mesh.n (keepMask f.mesh.n.length axes) (fun t => cget f.data t c) i := by
+  obtain ⟨axes, hax, hinv⟩ := chain_cells f hf ds f _ 1 g (chainInv_init f hf) h
+  rw [← keepMask_eq_foldl, one_mul] at hinv
+  obtain ⟨hwg, _, hnv, _, hdims, hpmin, hpmax, hn, hval⟩ := hinv
+  exact ⟨axes, hax, hdims, hpmin, hpmax, hn, hwg.2, hnv, hval⟩
+
+/-- Partial Fubini: two chained integrals over permutations of the same directions (not
+necessarily all of them) agree — same remaining axes, corners and cell counts, same values. -/
+theorem integrateSeq_perm (f : Fld) (hf : WF f) (ds ds' : List String) (hp : ds.Perm ds') (g g' : Fld)
+    (h : integrateSeq f ds = .ok (.field g)) (h' : integrateSeq f ds' = .ok (.field g')) :
+    g'.mesh.region.dims = g.mesh.region.dims ∧ g'.mesh.region.pmin = g.mesh.region.pmin ∧
+    g'.mesh.region.pmax = g.mesh.region.pmax ∧ g'.mesh.n = g.mesh.n ∧ g'.data.shape = g.data.shape ∧
+    g'.nvdim = g.nvdim ∧
+    ∀ i c, inRange g.data.shape i = true → c < f.nvdim → cget g'.data i c = cget g.data i c :=
+  integrateSeq_perm' f hf ds ds' hp g g' h h'
+
+/-- … and both exist: for every list `ds` of distinct directions (fewer than all) and every
+permutation `ds'` of it, both chained integrals succeed and agree. -/
+theorem integrateSeq_perm_total (f : Fld) (hf : WF f) (hsubs : SubsFit f.mesh) (ds ds' : List String)
+    (hnd : ds.Nodup) (hmem : ∀ d ∈ ds, d ∈ f.mesh.region.dims) (hlen : ds.length < f.mesh.ndim)
+    (hp : ds.Perm ds') :
+    ∃ g g', integrateSeq f ds = .ok (.field g) ∧ integrateSeq f ds' = .ok (.field g') ∧
+      g'.mesh.n = g.mesh.n ∧ g'.data.shape = g.data.shape ∧
+      ∀ i c, inRange g.data.shape i = true → c < f.nvdim → cget g'.data i c = cget g.data i c := by
+  obtain ⟨g, hg⟩ := integrateSeq_ok f hf hsubs ds hnd hmem hlen
+  obtain ⟨g', hg'⟩ := integrateSeq_ok f hf hsubs ds' (hp.nodup_iff.mp hnd)
+    (fun d hd => hmem d (hp.mem_iff.mpr hd)) (by rw [← hp.length_eq]; exact hlen)
+  obtain ⟨_, _, _, hn, hs, _, hv⟩ := integrateSeq_perm f hf ds ds' hp g g' hg hg'
+  exact ⟨g, g', hg, hg', hn, hs, hv⟩
+
+/-! ## Axis removal with subregions
+
+`SubsFit m`: every subregion of `m` starts a whole number of cells into the region and is a
+whole number (≥ 1) of cells long on every axis (what the subregion setter checks, read with
+tolerance 0). -/
+
+/-- `Mesh.sel(d)` on a well-formed mesh (two or more dimensions) whose subregions fit it, for
+every direction `d` of the mesh: it SUCCEEDS — the subregion setter of the reduced mesh accepts
+every inherited subregion (inside the region, whole cells, aligned) — and returns the reduced
+mesh of the same mesh without subregions, carrying exactly the subregions whose closed extent
+along the removed axis contains the centre of cell ⌊n/2⌋ of that axis, each with that axis
+removed and the reduced mesh's dims / units / tolerance; these fit the reduced mesh again. -/
+theorem sel_subregions (m : Mesh) (hm : m.Inv) (hfit : SubsFit m) (h2 : 2 ≤ m.ndim) (d : String)
+    (hd : d ∈ m.region.dims) :
+    ∃ ax mc m', m.region.dim2index d = .ok ax ∧ sel { m with subs := [] } d = .ok mc ∧ sel m d = .ok m' ∧
+      m'.region = mc.region ∧ m'.n = mc.n ∧ m'.bc = "" ∧
+      m'.subs = (keepSubs ax (m.region.lo ax + (((m.nAt ax / 2 : Nat) : Rat) + 1/2) * m.cellAt ax) m.subs).map
+        (fun p => (p.1, restamp mc (projReg ax p.2))) ∧
+      SubsFit m' := by
+  obtain ⟨ax, hax⟩ := dim2index_of_mem _ _ hd
+  obtain ⟨s, mc, m', hs, hsel0, hsel, hm', hfit'⟩ := sel_ok_subs m hm hfit h2 d ax hax
+  obtain ⟨haxd, _⟩ := dim2index_ok _ _ _ hax
+  have haxlt : ax < m.ndim := by
+    show ax < m.region.pmin.length
+    rw [← hm.1.2.2.1]; exact haxd
+  rw [selCentre_eq m hm ax haxlt] at hs
+  injection hs with hs
+  obtain ⟨_, _, _, _, _, _, _, _, _, _, hbc, _⟩ := sel_spec m hm d m' hsel
+  refine ⟨ax, mc, m', hax, hsel0, hsel, by rw [hm'], by rw [hm'], hbc, by rw [hm', hs], hfit'⟩
+
+/-- which subregions survive: a subregion of the mesh is inherited by the reduced mesh iff
+the centre of cell ⌊n/2⌋ along the removed axis lies in its closed extent along that axis -/
+theorem keepSubs_mem (ax : Nat) (s : Rat) (subs : List (String × Region)) (p : String × Region) :
+    p ∈ keepSubs ax s subs ↔ p ∈ subs ∧ p.2.lo ax ≤ s ∧ s ≤ p.2.hi ax := by
+  unfold keepSubs
+  rw [List.mem_filter]
+  simp only [Bool.not_eq_true', Bool.or_eq_false_iff, decide_eq_false_iff_not, not_lt]
+  constructor
+  · rintro ⟨h, h1, h2⟩; exact ⟨h, h2, h1⟩
+  · rintro ⟨h, h1, h2⟩; exact ⟨h, h2, h1⟩
+
+/-- `integrate(d)` and `mean(d)` on a mesh with fitting subregions live on exactly the mesh
+`Mesh.sel(d)` returns (theorem `sel_subregions`), subregions included. -/
+theorem integrate_mean_dir_mesh (f : Fld) (d : String) (g : Fld) :
+    (integrate f (.name d) false = .ok (.field g) → sel f.mesh d = .ok g.mesh) ∧
+    (mean f (.name d) = .ok (.field g) → sel f.mesh d = .ok g.mesh) := by
+  constructor
+  · intro h
+    obtain ⟨_, m', _, _, hsel, _, hg⟩ := integrate_dir_unpack f d g h
+    rw [hsel, hg]
+  · intro h
+    obtain ⟨_, m', _, hsel, _, hg⟩ := mean_name_unpack f d _ h
+    injection hg with hg
+    rw [hsel, hg]
+
+/-! ## In-place histories: cell volume and integrals follow the mesh
+
+`runH f steps` is the field after the mesh object it refers to has been transformed in place
+by `steps` (`mesh.scale`, `mesh.region.scale`, `mesh.translate`, `mesh.region.translate`, each
+with `inplace=True`; a rejected step changes nothing).  `histFac m a steps` is the product of
+the absolute scale factors of axis `a` over the accepted steps, `histVol` the product of these
+over the axes. -/
+
+/-- One in-place step keeps the mesh well formed, keeps cell counts and names, and multiplies
+the cell length of every axis by the absolute value of that axis's scale factor (by 1 for a
+translation). -/
+theorem hstep_geometry (m : Mesh) (hm : m.Inv) (s : HStep) (m' : Mesh) (h : hstepM m s = .ok m') :
+    m'.Inv ∧ m'.n = m.n ∧ m'.region.dims = m.region.dims ∧ m'.ndim = m.ndim ∧
+    ∀ a, a < m.ndim → m'.cellAt a = stepFac s a * m.cellAt a :=
+  hstepM_spec m hm s m' h
+
+/-- In-place steps are accepted: on every well-formed mesh, `mesh.region.translate` by a vector
+of the right length and `mesh.region.scale` by non-zero factors (a number or one per axis,
+reference point absent or of the right length) succeed; if the subregions fit the mesh the same
+holds for `mesh.translate` / `mesh.scale`, which also transform every subregion. -/
+theorem hstep_accepted (m : Mesh) (hm : m.Inv) :
+    (∀ v : List Rat, v.length = m.ndim → ∃ m', hstepM m (.translateRegion v) = .ok m') ∧
+    (∀ (f : T.Factor) (ref : Option (List Rat)), f.okFor m.ndim = true →
+      (ref.getD m.region.center).length = m.ndim → (∀ a, a < m.ndim → f.at a ≠ 0) →
+      ∃ m', hstepM m (.scaleRegion f ref) = .ok m') ∧
+    (SubsFit m →
+      (∀ v : List Rat, v.length = m.ndim → ∃ m', hstepM m (.translateMesh v) = .ok m') ∧
+      (∀ (f : T.Factor) (ref : Option (List Rat)), f.okFor m.ndim = true →
+        (ref.getD m.region.center).length = m.ndim → (∀ a, a < m.ndim → f.at a ≠ 0) →
+        ∃ m', hstepM m (.scaleMesh f ref) = .ok m')) :=
+  ⟨(hstepM_region_ok m hm).1, (hstepM_region_ok m hm).2, fun hfit => hstepM_mesh_ok m hm hfit⟩
+
+/-- After ANY history of in-place steps the field is still well formed, carries the same
+arrays, and the cell volume of its mesh is the accumulated volume factor times the original
+cell volume: `dV` follows the mesh (induction over the history). -/
+theorem dV_history (f : Fld) (hf : WF f) (steps : List HStep) :
+    WF (runH f steps) ∧ (runH f steps).data = f.data ∧
+    dV (runH f steps).mesh = histVol f.mesh steps * dV f.mesh ∧
+    ∀ a, a < f.mesh.ndim → (runH f steps).mesh.cellAt a = histFac f.mesh a steps * f.mesh.cellAt a := by
+  obtain ⟨hwf, hdata, _, _, _, _, hc⟩ := runH_spec steps f hf
+  exact ⟨hwf, hdata, dV_runH f hf steps, hc⟩
+
+/-- `integrate()` after any history of in-place steps is the accumulated volume factor times
+`integrate()` before — the current cell volume times the sum of the cells. -/
+theorem integrate_all_history (f : Fld) (hf : WF f) (steps : List HStep) :
+    integrate (runH f steps) .none false
+      = .ok (.vals (tab f.nvdim fun c =>
+          histVol f.mesh steps * (dV f.mesh * nestSum f.data.shape fun i => cget f.data i c))) := by
+  obtain ⟨_, hdata, hnv, _, _, _, _⟩ := runH_spec steps f hf
+  rw [integrate_all, hnv, dV_runH f hf steps, hdata]
+  congr 2
+  apply tab_congr
+  intro c _
+  ring
+
+/-- `integrate(d)` and `integrate(d, cumulative=True)` after any history of in-place steps:
+same shape, and every entry is the accumulated factor of THAT axis times the entry before. -/
+theorem integrate_dir_history (f : Fld) (hf : WF f) (steps : List HStep) (d : String) (cum : Bool) (r r' : Res)
+    (h : integrate f (.name d) cum = .ok r) (h' : integrate (runH f steps) (.name d) cum = .ok r') :
+    ∃ ax, f.mesh.region.dim2index d = .ok ax ∧ r'.shape = r.shape ∧
+      ∀ i c, inRange r.shape i = true → c < f.nvdim →
+        r'.cval i c = histFac f.mesh ax steps * r.cval i c := by
+  obtain ⟨hwf, _, hnv, _, _, _, _⟩ := runH_spec steps f hf
+  obtain ⟨_, hs, hv⟩ := integrate_vals f hf (.name d) cum r h
+  obtain ⟨_, hs', hv'⟩ := integrate_vals _ hwf (.name d) cum r' h'
+  have hax : ∃ ax, f.mesh.region.dim2index d = .ok ax := by
+    cases hd : f.mesh.region.dim2index d with
+    | ok ax => exact ⟨ax, rfl⟩
+    | error e =>
+      unfold integrate at h
+      simp only [hd] at h
+      cases h
+  obtain ⟨ax, hax⟩ := hax
+  have hss : r'.shape = r.shape := by rw [hs, hs', ishape_runH f hf steps]
+  refine ⟨ax, hax, hss, ?_⟩
+  intro i c hi hc
+  rw [hv' i c (by rw [hss]; exact hi) (by rw [hnv]; exact hc), hv i c hi hc]
+  exact ival_runH_name f hf steps d ax hax cum i c
+
+/-- Every form of `mean` is unchanged by any history of in-place rescalings / translations of
+the mesh: `mean()` literally, the other forms in shape and values. -/
+theorem mean_history_invariant (f : Fld) (hf : WF f) (steps : List HStep) :
+    mean (runH f steps) .none = mean f .none ∧
+    ∀ dir r r', mean f dir = .ok r → mean (runH f steps) dir = .ok r' →
+      r'.shape = r.shape ∧ ∀ i c, inRange r.shape i = true → c < f.nvdim → r'.cval i c = r.cval i c := by
+  obtain ⟨_, hdata, hnv, _, _, _, _⟩ := runH_spec steps f hf
+  constructor
+  · unfold mean meanAll
+    simp only [hdata, hnv]
+  · intro dir r r' h h'
+    obtain ⟨_, hs, hv⟩ := mean_vals f dir r h
+    obtain ⟨_, hs', hv'⟩ := mean_vals _ dir r' h'
+    have hss : r'.shape = r.shape := by rw [hs, hs', mshape_runH f hf steps]
+    refine ⟨hss, ?_⟩
+    intro i c hi hc
+    rw [hv' i c (by rw [hss]; exact hi) (by rw [hnv]; exact hc), hv i c hi hc]
+    exact mval_runH f hf steps dir i c
+
+/-- A history of in-place translations only leaves `integrate()` literally unchanged. -/
+theorem integrate_all_translation_history (f : Fld) (hf : WF f) (steps : List HStep)
+    (hall : ∀ s ∈ steps, ∀ a, stepFac s a = 1) :
+    integrate (runH f steps) .none false = integrate f .none false := by
+  rw [integrate_all_history f hf steps, integrate_all]
+  congr 2
+  apply tab_congr
+  intro c _
+  unfold histVol
+  rw [tab_congr _ _ (fun _ => (1 : Rat)) (fun a _ => histFac_translations steps hall f.mesh a), ratProd_tab_one]
+  ring
+
+/-! ## Order and absolute value -/
+
+/-- All forms of `integrate` are monotone in the field: if `f ≤ g` cell by cell in component
+`c` (two fields on one mesh) then every entry of the integral of `f` is at most the
+corresponding entry of the integral of `g` (cell lengths and cell volume are positive). -/
+theorem integrate_monotone (f g : Fld) (hf : WF f) (hm : g.mesh = f.mesh) (hn : g.nvdim = f.nvdim)
+    (hs : g.data.shape = f.data.shape) (c : Nat) (hc : c < f.nvdim)
+    (hle : ∀ t, cget f.data t c ≤ cget g.data t c) (dir : Dir) (cum : Bool) (rf rg : Res)
+    (h1 : integrate f dir cum = .ok rf) (h2 : integrate g dir cum = .ok rg) :
+    rg.shape = rf.shape ∧ ∀ i, inRange rf.shape i = true → rf.cval i c ≤ rg.cval i c := by
+  have hwg : WF g := ⟨by rw [hm]; exact hf.1, by rw [hs, hm]; exact hf.2⟩
+  obtain ⟨_, hsf, hvf⟩ := integrate_vals f hf dir cum rf h1
+  obtain ⟨_, hsg, hvg⟩ := integrate_vals g hwg dir cum rg h2
+  have hss : rg.shape = rf.shape := by rw [hsg, hsf]; unfold ishape; rw [hm]
+  refine ⟨hss, ?_⟩
+  intro i hi
+  rw [hvf i c hi hc, hvg i c (by rw [hss]; exact hi) (by rw [hn]; exact hc)]
+  exact ival_mono f g hf hm hs c hle dir cum i
+
+/-- The integral of `abs(f)` — every form: all directions, one direction, cumulative — exists
+whenever that of `f` does, lives on the same mesh, and bounds the absolute value of the
+integral of `f` entry by entry (triangle inequality); in particular it is non-negative. -/
+theorem integrate_abs_triangle (f : Fld) (hf : WF f) (dir : Dir) (cum : Bool) (r : Res)
+    (h : integrate f dir cum = .ok r) :
+    ∃ ra, integrate (absF f) dir cum = .ok ra ∧ ra.mesh? = r.mesh? ∧ ra.shape = r.shape ∧
+      ∀ i c, inRange r.shape i = true → c < f.nvdim → |r.cval i c| ≤ ra.cval i c ∧ 0 ≤ ra.cval i c := by
+  obtain ⟨ra, hra, hmesh⟩ := integrate_frame f (absF f) rfl rfl dir cum r h
+  have hwa : WF (absF f) := ⟨hf.1, hf.2⟩
+  obtain ⟨_, hsa, hva⟩ := integrate_vals _ hwa dir cum ra hra
+  obtain ⟨_, hs, hv⟩ := integrate_vals f hf dir cum r h
+  have hss : ra.shape = r.shape := by rw [hsa, hs]; rfl
+  refine ⟨ra, hra, hmesh, hss, ?_⟩
+  intro i c hi hc
+  rw [hva i c (by rw [hss]; exact hi) hc, hv i c hi hc]
+  have := ival_abs f hf c hc dir cum i
+  exact ⟨this, le_trans (abs_nonneg _) this⟩
+
+/-- Bookkeeping of every field result: number of components, component labels and mapping are
+kept, every cell of the result is valid; `integrate` drops the unit, `mean` keeps it. -/
+theorem result_meta (f : Fld) (g : Fld) :
+    (∀ dir cum, integrate f dir cum = .ok (.field g) →
+      g.nvdim = f.nvdim ∧ g.vdims = f.vdims ∧ g.vmap = f.vmap ∧ g.unit = none ∧ ∀ i, g.valid.get i = true) ∧
+    (∀ dir, mean f dir = .ok (.field g) →
+      g.nvdim = f.nvdim ∧ g.vdims = f.vdims ∧ g.vmap = f.vmap ∧ g.unit = f.unit ∧ ∀ i, g.valid.get i = true) := by
+  constructor
+  · intro dir cum h
+    cases dir with
+    | none =>
+      cases cum with
+      | true => cases h
+      | false => rw [integrate_all] at h; cases h
+    | name d =>
+      cases cum with
+      | true =>
+        obtain ⟨_, _, _, hr⟩ := integrate_cum_unpack f d _ h
+        injection hr with hr; subst hr
+        exact ⟨rfl, rfl, rfl, rfl, fun _ => rfl⟩
+      | false =>
+        obtain ⟨_, _, _, _, _, _, hg⟩ := integrate_dir_unpack f d g h
+        subst hg
+        exact ⟨rfl, rfl, rfl, rfl, fun _ => rfl⟩
+    | names ds => cases h
+    | other => cases h
+  · intro dir h
+    cases dir with
+    | none => unfold mean at h; cases h
+    | name d =>
+      obtain ⟨_, _, _, _, _, hr⟩ := mean_name_unpack f d _ h
+      injection hr with hr; subst hr
+      exact ⟨rfl, rfl, rfl, rfl, fun _ => rfl⟩
+    | names ds =>
+      obtain ⟨_, _, _, _, _, _, hg⟩ := mean_names_unpack f ds g h
+      subst hg
+      exact ⟨rfl, rfl, rfl, rfl, fun _ => rfl⟩
+    | other => cases h
+
+/-! ## Exactly which calls succeed -/
+
+/-- Acceptance of `integrate`, characterised: on a well-formed field whose subregions fit the
+mesh, `integrate(direction, cumulative)` returns a result EXACTLY when either no direction is
+given and `cumulative` is false, or the direction is one name of the mesh (any number of
+dimensions, cumulative or not). -/
+theorem integrate_ok_iff (f : Fld) (hf : WF f) (hsubs : SubsFit f.mesh) (dir : Dir) (cum : Bool) :
+    (∃ r, integrate f dir cum = .ok r) ↔
+      (match dir with
+       | .none => cum = false
+       | .name d => d ∈ f.mesh.region.dims
+       | _ => False) := by
+  cases dir with
+  | none =>
+    cases cum with
+    | true => simp [integrate]
+    | false => simp only [iff_true]; exact ⟨_, integrate_all f⟩
+  | name d =>
+    simp only
+    constructor
+    · rintro ⟨r, h⟩
+      cases hd : f.mesh.region.dim2index d with
+      | ok ax => exact mem_of_dim2index _ _ _ hd
+      | error e =>
+        unfold integrate at h
+        simp only [hd] at h
+        cases h
+    · intro hd
+      cases cum with
+      | true =>
+        obtain ⟨g, hg⟩ := integrate_cum_ok f hf d hd
+        exact ⟨_, hg⟩
+      | false =>
+        by_cases h1 : f.mesh.ndim = 1
+        · obtain ⟨v, hv⟩ := (integrate_dir_ok f hf hsubs d hd).2 h1
+          exact ⟨_, hv⟩
+        · have h2 : 2 ≤ f.mesh.ndim := by
+            have := hf.1.1.1
+            have h0 : f.mesh.ndim = f.mesh.region.pmin.length := rfl
+            omega
+          obtain ⟨g, hg, _⟩ := (integrate_dir_ok f hf hsubs d hd).1 h2
+          exact ⟨_, hg⟩
+  | names ds => simp [integrate]
+  | other => simp [integrate]
+
+/-- Acceptance of `mean`, characterised: on a well-formed field whose subregions fit the mesh,
+`mean(direction)` returns a result EXACTLY when no direction is given, or the direction is one
+name of a mesh with at least two dimensions, or it is a list of distinct names of the mesh (in
+any order; all of them, some of them or none). -/
+theorem mean_ok_iff (f : Fld) (hf : WF f) (hsubs : SubsFit f.mesh) (dir : Dir) :
+    (∃ r, mean f dir = .ok r) ↔
+      (match dir with
+       | .none => True
+       | .name d => d ∈ f.mesh.region.dims ∧ 2 ≤ f.mesh.ndim
+       | .names ds => ds.Nodup ∧ ∀ d ∈ ds, d ∈ f.mesh.region.dims
+       | .other => False) := by
+  cases dir with
+  | none => simp only [iff_true]; exact ⟨_, rfl⟩
+  | name d =>
+    simp only
+    constructor
+    · rintro ⟨r, h⟩
+      obtain ⟨ax, m', hax, hsel, _, _⟩ := mean_name_unpack f d r h
+      obtain ⟨_, _, _, h2, _⟩ := sel_spec f.mesh hf.1 d m' hsel
+      exact ⟨mem_of_dim2index _ _ _ hax, h2⟩
+    · rintro ⟨hd, h2⟩
+      obtain ⟨g, hg⟩ := mean_dir_ok f hf hsubs h2 d hd
+      exact ⟨_, hg⟩
+  | names ds =>
+    simp only
+    constructor
+    · rintro ⟨r, h⟩
+      obtain ⟨hdup, hcase⟩ := mean_names_cases f ds r h
+      refine ⟨nodup_of_hasDup _ hdup, ?_⟩
+      rcases hcase with ⟨hsame, _⟩ | ⟨_, m', axes, _, haxes, _, _⟩
+      · intro d hd
+        exact ((sameMultiset_iff_perm _ _).mp hsame).mem_iff.mp hd
+      · exact dimIndices_ok_mem _ _ _ haxes
+    · rintro ⟨hnd, hmem⟩
+      by_cases hp : ds.Perm f.mesh.region.dims
+      · exact ⟨_, by rw [mean_all_named f hf ds hp]; rfl⟩
+      · have hdl : f.mesh.region.dims.length = f.mesh.ndim := hf.1.1.2.2.1
+        have hlt := length_lt_of_not_perm ds _ hnd hmem hp
+        obtain ⟨g, hg⟩ := mean_dirs_ok f hf hsubs ds hnd hmem (by rw [← hdl]; exact hlt)
+        exact ⟨_, hg⟩
+  | other => simp [mean]
+
+/-- Invariant over histories: after ANY history of `mesh.scale` / `mesh.translate` in-place
+steps (which transform the region and every subregion alike; negative factors reflect) the
+subregions still fit the mesh — so every directional integral, every cumulative integral and
+every mean that existed before still exists (acceptance theorems `integrate_ok_iff`,
+`mean_ok_iff` apply to the current state). -/
+theorem subregions_fit_after_history (f : Fld) (hf : WF f) (hsubs : SubsFit f.mesh) (steps : List HStep)
+    (hall : ∀ s ∈ steps, (∃ fac ref, s = HStep.scaleMesh fac ref) ∨ (∃ v, s = HStep.translateMesh v)) :
+    WF (runH f steps) ∧ SubsFit (runH f steps).mesh ∧
+    ∀ d, d ∈ f.mesh.region.dims → ∀ cum, ∃ r, integrate (runH f steps) (.name d) cum = .ok r := by
+  obtain ⟨hwf, _, _, _, hdims, _, _⟩ := runH_spec steps f hf
+  have hfit := subsFit_runH steps hall f hf hsubs
+  refine ⟨hwf, hfit, ?_⟩
+  intro d hd cum
+  exact (integrate_ok_iff _ hwf hfit (.name d) cum).mpr (by rw [hdims]; exact hd)
+
 /-! ## Refusals -/
 
 /-- a cumulative integral over all directions is rejected -/
@@ -725,8 +1332,9 @@ theorem mean_rejects (f : Fld) (ds : List String) (h : hasDup ds = true) :
 
 /-! ## Non-vacuity: the hypotheses of the theorems above are met by concrete fields
 (`exFld`: 2×3 cells, two components; `exFld1`: 1-d, cells of length 1/2; `exFld3`: 2×2×3 cells
-of sizes 1, 1/2, 2 — `DFV/Lemmas/C06Ok.lean`), and by every well-formed field without
-subregions (theorems `…_ok`). -/
+of sizes 1, 1/2, 2 — `DFV/Lemmas/C06Ok.lean`; `exFldS`: `exFld` with two subregions —
+`DFV/Lemmas/C06Centre.lean`), and by every well-formed field whose subregions fit the mesh
+(theorems `…_ok`, `integrate_ok_iff`, `mean_ok_iff`). -/
 
 example : WF exFld ∧ WF exFld1 ∧ WF exFld3 := ⟨exFld_wf, exFld1_wf, exFld3_wf⟩
 
@@ -734,14 +1342,14 @@ example : WF exFld ∧ WF exFld1 ∧ WF exFld3 := ⟨exFld_wf, exFld1_wf, exFld3
 example : (∃ g, integrate exFld3 (.name "y") false = .ok (.field g)) ∧
     (∃ g, integrate exFld3 (.name "y") true = .ok (.field g)) ∧
     (∃ g, mean exFld3 (.name "y") = .ok (.field g)) :=
-  ⟨by obtain ⟨g, h, _⟩ := (integrate_dir_ok exFld3 exFld3_wf rfl "y" (by decide)).1 (by decide); exact ⟨g, h⟩,
+  ⟨by obtain ⟨g, h, _⟩ := (integrate_dir_ok exFld3 exFld3_wf (subsFit_nil _ rfl) "y" (by decide)).1 (by decide); exact ⟨g, h⟩,
    integrate_cum_ok exFld3 exFld3_wf "y" (by decide),
-   mean_dir_ok exFld3 exFld3_wf rfl (by decide) "y" (by decide)⟩
+   mean_dir_ok exFld3 exFld3_wf (subsFit_nil _ rfl) (by decide) "y" (by decide)⟩
 
 /-- hypotheses of `integrate_dir_1d`, `cumulative_last_1d` -/
 example : (∃ v, integrate exFld1 (.name "x") false = .ok (.vals v)) ∧
     (∃ g, integrate exFld1 (.name "x") true = .ok (.field g)) :=
-  ⟨(integrate_dir_ok exFld1 exFld1_wf rfl "x" (by decide)).2 rfl, integrate_cum_ok exFld1 exFld1_wf "x" (by decide)⟩
+  ⟨(integrate_dir_ok exFld1 exFld1_wf (subsFit_nil _ rfl) "x" (by decide)).2 rfl, integrate_cum_ok exFld1 exFld1_wf "x" (by decide)⟩
 
 /-- `fubini` / `fubini_total`: all six orders of three directions -/
 example : ∀ ds ∈ [["x", "y", "z"], ["x", "z", "y"], ["y", "x", "z"], ["y", "z", "x"], ["z", "x", "y"], ["z", "y", "x"]],
@@ -749,14 +1357,14 @@ example : ∀ ds ∈ [["x", "y", "z"], ["x", "z", "y"], ["y", "x", "z"], ["y", "
   intro ds hds
   simp only [List.mem_cons, List.mem_nil_iff, or_false] at hds
   rcases hds with rfl | rfl | rfl | rfl | rfl | rfl <;>
-    exact fubini_total exFld3 exFld3_wf rfl _ (by decide) (by decide) rfl
+    exact fubini_total exFld3 exFld3_wf (subsFit_nil _ rfl) _ (by decide) (by decide) rfl
 
 /-- hypotheses of `mean_dirs_eq`: a proper subset of the directions, in an order that is not
 the storage order -/
 example : (∃ gm, mean exFld3 (.names ["z", "x"]) = .ok (.field gm)) ∧
     (∃ gi, integrateSeq exFld3 ["z", "x"] = .ok (.field gi)) :=
-  ⟨mean_dirs_ok exFld3 exFld3_wf rfl _ (by decide) (by decide) (by decide),
-   integrateSeq_ok exFld3 exFld3_wf rfl _ (by decide) (by decide) (by decide)⟩
+  ⟨mean_dirs_ok exFld3 exFld3_wf (subsFit_nil _ rfl) _ (by decide) (by decide) (by decide),
+   integrateSeq_ok exFld3 exFld3_wf (subsFit_nil _ rfl) _ (by decide) (by decide) (by decide)⟩
 
 /-- `mean_all_named`: a permutation of the directions -/
 example : mean exFld (.names ["y", "x"]) = mean exFld .none :=
@@ -767,10 +1375,58 @@ example : mean exFld (.names ["y", "x"]) = mean exFld .none :=
 example : ∃ rf rg r', integrate exFld (.name "x") false = .ok rf ∧
     integrate (lin 2 exFld (-3) exFld) (.name "x") false = .ok rg ∧
     integrate (translate [5, -7/2] exFld) (.name "x") false = .ok r' := by
-  obtain ⟨g1, h1, _⟩ := (integrate_dir_ok exFld exFld_wf rfl "x" (by decide)).1 (by decide)
-  obtain ⟨g2, h2, _⟩ := (integrate_dir_ok (lin 2 exFld (-3) exFld) ⟨exFld_wf.1, exFld_wf.2⟩ rfl "x" (by decide)).1 (by decide)
-  obtain ⟨g3, h3, _⟩ := (integrate_dir_ok (translate [5, -7/2] exFld) (translate_wf _ _ exFld_wf) rfl "x" (by decide)).1 (by decide)
+  obtain ⟨g1, h1, _⟩ := (integrate_dir_ok exFld exFld_wf (subsFit_nil _ rfl) "x" (by decide)).1 (by decide)
+  obtain ⟨g2, h2, _⟩ := (integrate_dir_ok (lin 2 exFld (-3) exFld) ⟨exFld_wf.1, exFld_wf.2⟩ (subsFit_nil _ rfl) "x" (by decide)).1 (by decide)
+  obtain ⟨g3, h3, _⟩ := (integrate_dir_ok (translate [5, -7/2] exFld) (translate_wf _ _ exFld_wf) (subsFit_nil _ rfl) "x" (by decide)).1 (by decide)
   exact ⟨_, _, _, h1, h2, h3⟩
+
+/-- `SubsFit` is met by a concrete mesh with two subregions (`exFldS`: `r0` = [1,2]×[1,3],
+`r1` = [0,1]×[3,4] on the 2×3 mesh), so `sel_subregions`, the `…_ok` theorems, `fubini_perm`,
+`integrate_ok_iff`, `mean_ok_iff` apply to meshes that really carry subregions -/
+example : WF exFldS ∧ SubsFit exFldS.mesh ∧ exFldS.mesh.subs.length = 2 ∧
+    (∃ g, integrate exFldS (.name "x") false = .ok (.field g) ∧ SubsFit g.mesh) ∧
+    integrateSeq exFldS ["y", "x"] = integrate exFldS .none false :=
+  ⟨exFldS_wf, exFldS_fits, rfl,
+   (integrate_dir_ok exFldS exFldS_wf exFldS_fits "x" (by decide)).1 (by decide),
+   fubini_perm exFldS exFldS_wf exFldS_fits _ (List.Perm.swap "x" "y" [])⟩
+
+/-- hypotheses of `mean_linear`, `mean_componentwise`, `mean_translation_invariant`: the means
+exist for a direction, for a list, and on the moved field -/
+example : (∃ r, mean exFld3 (.name "y") = .ok r) ∧ (∃ r, mean exFld3 (.names ["z", "x"]) = .ok r) ∧
+    (∃ r, mean (translate [1, 2, 3] exFld3) (.names ["z", "x"]) = .ok r) :=
+  ⟨(mean_ok_iff exFld3 exFld3_wf (subsFit_nil _ rfl) (.name "y")).mpr ⟨by decide, by decide⟩,
+   (mean_ok_iff exFld3 exFld3_wf (subsFit_nil _ rfl) (.names ["z", "x"])).mpr ⟨by decide, by decide⟩,
+   (mean_ok_iff _ (translate_wf _ _ exFld3_wf) (subsFit_nil _ rfl) (.names ["z", "x"])).mpr ⟨by decide, by decide⟩⟩
+
+/-- hypotheses of `integrateSeq_perm` / `integrateSeq_vals`: two orders of a proper subset -/
+example : ∃ g g', integrateSeq exFld3 ["z", "x"] = .ok (.field g) ∧ integrateSeq exFld3 ["x", "z"] = .ok (.field g') := by
+  obtain ⟨g, g', h, h', _⟩ := integrateSeq_perm_total exFld3 exFld3_wf (subsFit_nil _ rfl) ["z", "x"] ["x", "z"]
+    (by decide) (by decide) (by decide) (List.Perm.swap "x" "z" [])
+  exact ⟨g, g', h, h'⟩
+
+/-- hypotheses of `cumulative_step` / `cumulative_first`: an index with a successor along the
+axis, and one at the start of the axis -/
+example : inRange exFld3.data.shape [1, 0, 0] = true ∧ ([1, 0, 0] : List Nat).getD 2 0 + 1 < exFld3.data.shape.getD 2 0 ∧
+    ([1, 0, 0] : List Nat).getD 2 0 = 0 := ⟨by decide, by decide, by decide⟩
+
+/-- hypotheses of `hstep_geometry` and the history theorems: an accepted in-place scaling with a
+negative factor and an accepted translation -/
+example : (∃ m', hstepM exFld.mesh (.scaleRegion (.vec [-2, 1/2]) none) = .ok m') ∧
+    (∃ m', hstepM exFld.mesh (.translateRegion [3, -1/2]) = .ok m') ∧
+    (∀ a, stepFac (.translateMesh [3, -1/2]) a = 1) :=
+  ⟨(hstepM_region_ok exFld.mesh exFld_wf.1).2 (.vec [-2, 1/2]) none rfl rfl (by
+      intro a ha
+      have : a = 0 ∨ a = 1 := by
+        have : a < 2 := ha
+        omega
+      rcases this with rfl | rfl <;> norm_num [T.Factor.at]),
+   (hstepM_region_ok exFld.mesh exFld_wf.1).1 [3, -1/2] rfl, fun _ => rfl⟩
+
+/-- hypothesis of `integrate_monotone`: `f ≤ abs f` cell by cell -/
+example : ∀ t, cget exFld.data t 0 ≤ cget (absF exFld).data t 0 := by
+  intro t
+  rw [cget_absF exFld t 0 (by decide)]
+  exact le_abs_self _
 
 /-- refusals are reached: an unknown name, a duplicate -/
 example : exFld.mesh.region.dim2index "q" = .error .value ∧ hasDup ["x", "y", "x"] = true := ⟨by decide, by decide⟩
